@@ -200,6 +200,28 @@ func overlayFor(g Group, native bool, extra map[string][]byte) (map[string][]byt
 
 var stubProblems []string
 
+// runGen runs a group's harness generator (if any) and returns the generated files keyed by
+// their overlay path.
+func runGen(g Group, genDir, tier string, seed int64) map[string][]byte {
+	extra := map[string][]byte{}
+	if g.Gen == "" {
+		return extra
+	}
+	os.MkdirAll(genDir, 0o755)
+	cmd := exec.Command("sh", "-c", g.Gen)
+	cmd.Dir = verifRoot
+	cmd.Env = append(os.Environ(), append(goEnv(), "VERIF_GEN_OUT="+genDir, "VERIF_TIER="+tier, fmt.Sprintf("VERIF_SEED=%d", seed))...)
+	if out, err := cmd.CombinedOutput(); err != nil {
+		fatal(fmt.Errorf("generator %q failed: %v\n%s", g.Gen, err, out))
+	}
+	files, _ := filepath.Glob(filepath.Join(genDir, "*.go"))
+	for _, f := range files {
+		b, _ := os.ReadFile(f)
+		extra[filepath.Join(repoRoot, g.Dir, "zz_verif_gen_"+filepath.Base(f))] = b
+	}
+	return extra
+}
+
 type harnessEvidence struct {
 	Name           string            `json:"name"`
 	Paths          int               `json:"paths"`
@@ -281,22 +303,7 @@ func cmdCheck(args []string) int {
 	var outLines []string
 	replays := 0
 	for gi, g := range ck.Groups {
-		extra := map[string][]byte{}
-		if g.Gen != "" {
-			genDir := filepath.Join(workDir, fmt.Sprintf("gen%d", gi))
-			os.MkdirAll(genDir, 0o755)
-			cmd := exec.Command("sh", "-c", g.Gen)
-			cmd.Dir = verifRoot
-			cmd.Env = append(os.Environ(), append(goEnv(), "VERIF_GEN_OUT="+genDir, "VERIF_TIER="+*tier, fmt.Sprintf("VERIF_SEED=%d", seed))...)
-			if out, err := cmd.CombinedOutput(); err != nil {
-				fatal(fmt.Errorf("generator %q failed: %v\n%s", g.Gen, err, out))
-			}
-			files, _ := filepath.Glob(filepath.Join(genDir, "*.go"))
-			for _, f := range files {
-				b, _ := os.ReadFile(f)
-				extra[filepath.Join(repoRoot, g.Dir, "zz_verif_gen_"+filepath.Base(f))] = b
-			}
-		}
+		extra := runGen(g, filepath.Join(workDir, fmt.Sprintf("gen%d", gi)), *tier, seed)
 		stubProblems = nil
 		ov, pkgName := overlayFor(g, false, extra)
 		if len(stubProblems) > 0 {
@@ -430,7 +437,7 @@ func cmdCheck(args []string) int {
 				}
 				seen[v.Label] = true
 				totalViol++
-				replayPath := writeReplay(id, g, n, v, *tier == "thorough")
+				replayPath := writeReplay(id, g, n, v, *tier == "thorough", seed)
 				status := "unreplayed"
 				schedDep := false
 				for _, d := range v.Path {
@@ -546,13 +553,15 @@ type replayFile struct {
 	Thorough bool              `json:"thorough"`
 	Files    []string          `json:"harness_files"`
 	Tags     []string          `json:"tags"`
+	Gen      string            `json:"gen,omitempty"`  // harness generator of the group (re-run on replay)
+	Seed     int64             `json:"seed,omitempty"` // VERIF_SEED of the run (generators sample with it)
 }
 
-func writeReplay(id string, g Group, harness string, v *interp.Violation, thorough bool) string {
+func writeReplay(id string, g Group, harness string, v *interp.Violation, thorough bool, seed int64) string {
 	dir := filepath.Join(verifRoot, "replays", id)
 	os.MkdirAll(dir, 0o755)
 	rf := replayFile{Property: id, Import: g.Import, Dir: g.Dir, Harness: harness, Label: v.Label, Kind: v.Kind, Msg: v.Msg,
-		Values: map[string]uint64{}, Pretty: modelStrings(v), Thorough: thorough, Files: g.Harness, Tags: g.Tags}
+		Values: map[string]uint64{}, Pretty: modelStrings(v), Thorough: thorough, Files: g.Harness, Tags: g.Tags, Gen: g.Gen, Seed: seed}
 	for _, in := range v.Inputs {
 		rf.Values[in.Name] = v.Model[in.Name]
 	}
@@ -667,13 +676,18 @@ func cmdReplay(args []string) int {
 	if err := json.Unmarshal(b, &rf); err != nil {
 		fatal(err)
 	}
-	g := Group{Import: rf.Import, Dir: rf.Dir, Harness: rf.Files, Tags: rf.Tags}
+	g := Group{Import: rf.Import, Dir: rf.Dir, Harness: rf.Files, Tags: rf.Tags, Gen: rf.Gen}
 	workDir := filepath.Join(verifRoot, "work", "replay-"+rf.Property)
 	os.MkdirAll(workDir, 0o755)
 	defer os.RemoveAll(workDir)
-	_, pkgName := overlayFor(g, true, nil)
+	tier := "quick"
+	if rf.Thorough {
+		tier = "thorough"
+	}
+	extra := runGen(g, filepath.Join(workDir, "gen"), tier, rf.Seed)
+	_, pkgName := overlayFor(g, true, extra)
 	abs, _ := filepath.Abs(args[0])
-	status := nativeReplay(workDir, g, pkgName, []string{rf.Harness}, rf.Harness, abs, nil)
+	status := nativeReplay(workDir, g, pkgName, []string{rf.Harness}, rf.Harness, abs, extra)
 	fmt.Printf("replay %s harness=%s label=%q: %s\n", rf.Property, rf.Harness, rf.Label, status)
 	if strings.HasPrefix(status, "reproduced") {
 		return 1
